@@ -701,6 +701,19 @@ class Model:
             # N.B. Any parameter expression elimination must be done first.
             symbols = self._symbols(self.constants)
             values = [v.value for v in self.constants]
+            if any(isinstance(v, ca.MX) and not v.is_constant() for v in values):
+                # Resolve constants given in terms of other constants
+                values = [ca.MX(v) for v in values]
+                for _ in range(SUBSTITUTE_LOOP_LIMIT):
+                    new_values = ca.substitute(values, symbols, values)
+                    converged = ca.is_equal(
+                        ca.veccat(*values), ca.veccat(*new_values), CASADI_COMPARISON_DEPTH
+                    )
+                    values = new_values
+                    if converged:
+                        break
+                else:
+                    logger.warning("Substitution of expressions exceeded maximum iteration limit.")
             if len(self.equations) > 0:
                 self.equations = ca.substitute(self.equations, symbols, values)
             if len(self.initial_equations) > 0:
